@@ -28,12 +28,16 @@ impl SecondaryStorage {
             if fs::metadata(&options.path).await.is_err() {
                 info!("create db directory at {:?}", options.path);
                 fs::create_dir(&options.path).await?;
+                #[cfg(feature = "verif")]
+                crate::verif::crash_point("boot.mkdir", &options.path, None);
             }
 
             // create DV folder if not exist
             let dv_directory = options.path.join("dv");
             if fs::metadata(&dv_directory).await.is_err() {
                 fs::create_dir(&dv_directory).await?;
+                #[cfg(feature = "verif")]
+                crate::verif::crash_point("boot.mkdir_dv", &dv_directory, None);
             }
         }
 
@@ -130,9 +134,13 @@ impl SecondaryStorage {
                         (table_id.parse::<u32>(), rowset_id.parse::<u32>())
                     && !rowsets_to_open.contains_key(&(table_id, rowset_id))
                 {
+                    #[cfg(feature = "verif")]
+                    crate::verif::crash_point("boot.vacuum.before_unlink", &entry.path(), None);
                     fs::remove_dir_all(entry.path())
                         .await
                         .expect("failed to vacuum unused rowsets");
+                    #[cfg(feature = "verif")]
+                    crate::verif::crash_point("boot.vacuum.unlinked", &entry.path(), None);
                 }
             }
         }
